@@ -185,43 +185,43 @@ func ruleReadServe() *Rule {
 				iOp = len(atoms)
 				atoms = append(atoms, opAtom)
 			}
+			iLatch := len(atoms)
+			atoms = append(atoms, GhostAtom("leaseOkAtLastUnlock", "no", "yes"))
 			sp := NewSpace(atoms...)
 			a := NewAnalysis(p, sp)
 			a.NoInline = func(callee *ssa.Function) bool { return callee == sel }
 			nApply := 0
+			leaseIdx := -1
+			if opAtom != nil {
+				leaseIdx = enumIdx(opAtom, "LeaseBasedReadOnly")
+			}
 			a.Hook = func(a *Analysis, f *Frame, in ssa.Instruction, st State) State {
-				if f.Parent != nil {
-					return st
-				}
-				if c, ok := in.(*ssa.Call); ok && c.Common().StaticCallee() == sel {
+				if c, ok := in.(*ssa.Call); ok && c.Common().StaticCallee() == sel && f.Parent == nil {
 					o := a.Observe("RS1 call appliableReadOnlyOperations in "+chainKey(f), f, in, st)
 					o.Extra["arg"] = p.Canon(f, c.Common().Args[1]).S
 				}
-				if ci, ok := in.(*ssa.Call); ok {
-					if op, recv := isMutexOp(ci.Common()); op == "Mutex.Unlock" && isNodeMutex(recv) {
-						// does this unlock open a window containing StateMachine.Apply?
-						after := false
-						applies := false
-						for _, x := range in.Block().Instrs {
-							if x == in {
-								after = true
-								continue
-							}
-							if after {
-								if iface, m, _ := invokeOf(x); iface == "StateMachine" && m == "Apply" {
-									applies = true
-								}
-							}
-						}
-						if applies {
-							nApply++
-							a.Observe("LEASE-SERVE unlock before StateMachine.Apply in "+chainKey(f), f, in, st)
-						}
+				if ci, ok := in.(ssa.CallInstruction); ok {
+					if _, isDefer := in.(*ssa.Defer); isDefer && !a.AtRunDefers {
+						return st
 					}
+					if op, recv := isMutexOp(ci.Common()); op == "Mutex.Unlock" && isNodeMutex(recv) {
+						// per concrete state: was serving allowed when the mutex was released?
+						return sp.Map(st, iLatch, func(pt, old int) uint32 {
+							if iOp >= 0 && (sp.Val(pt, iOp) != leaseIdx || sp.Val(pt, 2) == 1) {
+								return 1 << 1
+							}
+							return 1 << 0
+						})
+					}
+				}
+				if iface, m, _ := invokeOf(in); iface == "StateMachine" && m == "Apply" {
+					nApply++
+					n := instrOrdinal(in, func(x ssa.Instruction) bool { i, mm, _ := invokeOf(x); return i == "StateMachine" && mm == "Apply" })
+					a.Observe("LEASE-SERVE call StateMachine.Apply"+ordSuffix(n)+" in "+chainKey(f), f, in, st)
 				}
 				return st
 			}
-			a.Run(root, nil)
+			a.RunFrame(NewRootFrame(root), sp.Filter(sp.Top(), iLatch, 1))
 			L := enumIdx(stateAtom, "Leader")
 			for _, o := range a.SortedObs() {
 				if strings.HasPrefix(o.Key, "RS1") {
@@ -239,10 +239,8 @@ func ruleReadServe() *Rule {
 						Detail: "no test of the operation type guards the serve: a lease-based read is served without looking at the lease"})
 					continue
 				}
-				lease := enumIdx(opAtom, "LeaseBasedReadOnly")
-				out = append(out, evalObs(a, id, []*Observation{o}, func(_ *Observation, pt int) bool {
-					return sp.Val(pt, iOp) != lease || sp.Val(pt, 2) == 1
-				}, []int{iOp, 2}, "a lease-based read is served only while the lease is valid")...)
+				out = append(out, evalObs(a, id, []*Observation{o}, func(_ *Observation, pt int) bool { return sp.Val(pt, iLatch) == 1 }, []int{iLatch},
+					"a lease-based read is applied only if the lease was valid when the mutex was released for it")...)
 			}
 			if nApply == 0 {
 				out = append(out, missing(id, "unlock window containing StateMachine.Apply in (*Raft).readOnlyLoop")...)
